@@ -1,4 +1,7 @@
-// hx_gencode <file.cellml> <C|PY> <impl|iface>: parse, analyse, generate; prints the generated text (used by C03/C17 tooling)
+// hx_gencode <file.cellml> <C|PY>: parse, validate, analyse, generate.  Prints
+//   =====INFO   (validator / analyser issue counts, model type, variables and equations of the analysed model)
+//   =====IFACE  interface code      =====IMPL  implementation code
+// (used by the C03 execution oracle and by C05 / C17)
 #include <fstream>
 #include <iostream>
 #include <sstream>
@@ -6,17 +9,27 @@
 using namespace libcellml;
 int main(int argc, char **argv)
 {
-    if (argc < 4) return 2;
+    if (argc < 3) return 2;
     std::ifstream f(argv[1]);
     std::stringstream ss; ss << f.rdbuf();
     auto parser = Parser::create();
     auto model = parser->parseModel(ss.str());
+    auto validator = Validator::create();
+    validator->validateModel(model);
     auto analyser = Analyser::create();
     analyser->analyseModel(model);
+    auto am = analyser->model();
+    std::cout << "=====INFO\n";
+    std::cout << "parser_errors " << parser->errorCount() << "\nvalidator_errors " << validator->errorCount() << "\nanalyser_errors " << analyser->errorCount()
+              << "\nanalyser_warnings " << analyser->warningCount() << "\ntype " << AnalyserModel::typeAsString(am->type()) << "\n";
+    for (size_t i = 0; i < analyser->errorCount(); ++i) std::cout << "error " << analyser->error(i)->description() << "\n";
+    if (am->voi() != nullptr) std::cout << "voi " << std::dynamic_pointer_cast<Component>(am->voi()->variable()->parent())->name() << " " << am->voi()->variable()->name() << "\n";
+    for (size_t i = 0; i < am->stateCount(); ++i) { auto v = am->state(i); std::cout << "state " << i << " " << std::dynamic_pointer_cast<Component>(v->variable()->parent())->name() << " " << v->variable()->name() << "\n"; }
+    for (size_t i = 0; i < am->variableCount(); ++i) { auto v = am->variable(i); std::cout << "variable " << i << " " << std::dynamic_pointer_cast<Component>(v->variable()->parent())->name() << " " << v->variable()->name() << " " << AnalyserVariable::typeAsString(v->type()) << "\n"; }
+    for (size_t i = 0; i < am->equationCount(); ++i) { auto e = am->equation(i); std::cout << "equation " << i << " " << AnalyserEquation::typeAsString(e->type()) << " deps " << e->dependencyCount() << " vars " << e->variableCount() << "\n"; }
     auto gen = Generator::create();
-    gen->setModel(analyser->model());
+    gen->setModel(am);
     if (std::string(argv[2]) == "PY") gen->setProfile(GeneratorProfile::create(GeneratorProfile::Profile::PYTHON));
-    std::cout << (std::string(argv[3]) == "impl" ? gen->implementationCode() : gen->interfaceCode());
-    std::cerr << "issues " << analyser->issueCount() << " type " << int(analyser->model()->type()) << "\n";
+    std::cout << "=====IFACE\n" << gen->interfaceCode() << "=====IMPL\n" << gen->implementationCode();
     return 0;
 }
